@@ -208,6 +208,7 @@ struct State {
   // heap
   std::unordered_map<void *, size_t> live;
   std::map<size_t, size_t> arena_free;      // private arena: free extents (offset -> length), address ordered
+  std::map<size_t, size_t> poisoned;        // freed blocks whose first bytes still carry the 0xDD poison (offset -> poisoned length)
   bool arena_used = false;
   std::unordered_set<void *> freed;     // blocks of this run that were freed and not handed out again: a second free() is reported, not passed to libc
   size_t live_bytes = 0;
@@ -1021,6 +1022,7 @@ static bool arena_on() {
   }
   return on == 1;
 }
+static void poison_verify(State &s, size_t off, size_t len);
 static char *arena_alloc(State &s, size_t n) {
   size_t need = (n + CANARY + 63) & ~(size_t)63;
   if (s.arena_free.empty() && !s.arena_used) s.arena_free[0] = ARENA_SIZE;
@@ -1031,12 +1033,23 @@ static char *arena_alloc(State &s, size_t n) {
     if (len > need) s.arena_free[off + need] = len - need;
     s.arena_used = true;
     if (off + need > g_arena_high) g_arena_high = off + need;
+    for (auto pi = s.poisoned.lower_bound(off); pi != s.poisoned.end() && pi->first < off + need; pi = s.poisoned.erase(pi)) poison_verify(s, pi->first, pi->second);
     return g_arena + off;
   }
   return nullptr;
 }
+static void poison_verify(State &s, size_t off, size_t len) {
+  const unsigned char *q = (const unsigned char *)g_arena + off;
+  for (size_t i = 0; i < len; i++) if (q[i] != 0xDD) {
+    if (s.res->monitor.empty()) { char b[160]; snprintf(b, sizeof b, "heap: write to freed memory (byte %zu of a freed block of at least %zu bytes)", i, len); s.res->monitor = b; }
+    return;
+  }
+}
 static void arena_release(State &s, void *p, size_t n) {
   size_t off = (size_t)((char *)p - g_arena), len = (n + CANARY + 63) & ~(size_t)63;
+  // freed memory is poisoned (first 64 KiB): a read after free() sees 0xDD garbage, deterministically, and a write after free() is
+  // found when the range is handed out again or at the end of the run
+  { size_t pl = len < 65536 ? len : 65536; memset(p, 0xDD, pl); s.poisoned[off] = pl; }
   auto nx = s.arena_free.lower_bound(off);
   if (nx != s.arena_free.end() && nx->first == off + len) { len += nx->second; nx = s.arena_free.erase(nx); }
   if (nx != s.arena_free.begin()) { auto pv = std::prev(nx); if (pv->first + pv->second == off) { pv->second += len; return; } }
@@ -1678,6 +1691,9 @@ Result run(const Plan &plan) {
   switch_to(-1, 0, false);
   // back in root: run is over
   for (auto &kv : s.live) heap_check_block(kv.first, kv.second);
+#ifdef SIM_ARENA
+  for (auto &kv : s.poisoned) poison_verify(s, kv.first, kv.second);
+#endif
   R.final_heap = s.live_bytes;
   for (auto &kv : s.live) {
 #ifdef SIM_ASAN
